@@ -37,7 +37,7 @@ ASSUMPTIONS = [
     "expected values come from vt/ref/filterspec.py, transcribed from the filter/test docstrings and the Python built-ins they cite (sorted, min, max, sum, str.join)",
     "keys inside one input are mutually comparable (one key kind per case); strings use ASCII letters/digits/space so lower(), casefold() and upper() order agree",
     "min/max: any item whose key is extreme is accepted (the docstring does not say which of several equal items is returned)",
-    "missing attributes are generated only where the docstring defines the outcome (groupby/map default, selectattr/rejectattr with no test / defined / undefined)",
+    "missing attributes are generated only where the docstring defines the outcome (groupby/map default - there also a missing intermediate segment of a dotted path -, selectattr/rejectattr with no test / defined / undefined on the final segment)",
     "async generators are fed only to filters that have an async variant (first groupby join list map reject rejectattr select selectattr slice sum unique); feeding them to the others is finding F27 (C09)",
     "float sums are judged with a rounding-sized tolerance (float addition is not associative, builtin sum compensates) plus the requirement that all invocations, sync and async, agree exactly",
     "last / length are fed sequences only ('Does not work with generators')",
@@ -234,6 +234,8 @@ def _classify(case, name, items, args, kwargs, exp):
     if meta.get("missing"):
         labels.append("missing_attr")
         interesting = True
+    if meta.get("missing_parent"):
+        labels.append("missing_intermediate")
     if name in ("select", "reject", "selectattr", "rejectattr") and isinstance(exp, fs.Exact) and 0 < len(exp.value) < n:
         labels.append("partial_selection")
         interesting = True
@@ -270,7 +272,7 @@ def _key_strategy(kind):
     raise core.HarnessError(kind)
 
 
-def _wrap(shape, key, g, i, missing):
+def _wrap(shape, key, g, i, missing, drop_parent=False):
     if shape == "raw":
         return key
     if shape == "seq":
@@ -283,6 +285,8 @@ def _wrap(shape, key, g, i, missing):
     if shape == "obj":
         return {"$": "o", "v": attrs}
     if shape == "nested":
+        if missing and drop_parent:
+            return {"id": i}  # the intermediate segment itself is missing
         return {"sub": attrs, "id": i}
     raise core.HarnessError(shape)
 
@@ -351,6 +355,7 @@ def cases(draw):
     args, kwargs = [], {}
     params = []  # ordered (name, value) of explicitly given parameters following the signature
     may_miss = False
+    parent_may_miss = False  # a default is documented: an item may lack an intermediate path segment too
     key_attr = None  # attribute under which the filter looks at the key
     if name in ("batch", "slice"):
         params = [("linecount" if name == "batch" else "slices", draw(st.sampled_from([1, 2, 2, 3, 3, 4, 5, 7])))]
@@ -384,6 +389,7 @@ def cases(draw):
         if default is not None:
             default = {"int": 3, "str": "Ab", "tup": {"$": "t", "v": [1, 1]}}[kind]
             may_miss = shape != "seq" and which == "k"
+            parent_may_miss = may_miss
         params = [("attribute", key_attr)] + _subset(draw, [("default", default, None), ("case_sensitive", cs, False)])
         meta["cs"] = cs
     elif name == "join":
@@ -401,6 +407,7 @@ def cases(draw):
             if draw(st.booleans()):
                 kwargs["default"] = draw(st.sampled_from(["anon", 0, -1]))
                 may_miss = shape != "seq" and str(key_attr).endswith("k")
+                parent_may_miss = may_miss
     elif name in ("select", "reject"):
         args = list(draw(st.sampled_from(TESTS_BY_KIND[kind])))
     elif name in ("selectattr", "rejectattr"):
@@ -420,7 +427,11 @@ def cases(draw):
     missing = [False] * n
     if may_miss and n and draw(st.booleans()):
         missing = draw(st.lists(st.sampled_from([False, False, True]), min_size=n, max_size=n))
-    items = [_wrap(shape, k, g, i, m) for i, (k, g, m) in enumerate(zip(keys, gs, missing))]
+    drops = [False] * n
+    if parent_may_miss and shape == "nested" and any(missing):
+        drops = draw(st.lists(st.booleans(), min_size=n, max_size=n))
+    items = [_wrap(shape, k, g, i, m, d) for i, (k, g, m, d) in enumerate(zip(keys, gs, missing, drops))]
+    meta["missing_parent"] = any(m and d for m, d in zip(missing, drops))
     if params:
         args, kwargs = _call_shape(draw, name, params)
     # --- classification helpers (generator-side facts, judged nowhere)
@@ -525,7 +536,7 @@ def floors(total, tier):
     low = [f for f in FILTERS if total.labels.get(f, 0) < 200]
     if low:
         return "filters generated fewer than 200 times: %s" % low
-    for lab, need in (("dupkeys", 2000), ("nondivisible", 500), ("missing_attr", 200), ("partial_selection", 500), ("fill", 500), ("agen_input", 2000)):
+    for lab, need in (("dupkeys", 2000), ("nondivisible", 500), ("missing_attr", 200), ("missing_intermediate", 50), ("partial_selection", 500), ("fill", 500), ("agen_input", 2000)):
         if total.labels.get(lab, 0) < need:
             return "label %s below floor: %d < %d" % (lab, total.labels.get(lab, 0), need)
     return None
